@@ -147,6 +147,11 @@ impl TlsServer {
         Self { listener, port, config: Arc::new(config) }
     }
 
+    /// a second handle on the same listener (for an accepting thread)
+    pub fn acceptor(&self) -> Self {
+        Self { listener: self.listener.try_clone().expect("clone listener"), port: self.port, config: self.config.clone() }
+    }
+
     /// drop connections left over from an earlier case
     pub fn drain(&self) {
         _ = self.listener.set_nonblocking(true);
